@@ -1330,8 +1330,11 @@ class RealFloat(numbers.Rational):
 
         # step 6. check if rounding was exact (if so, we're done)
         if lost.is_zero():
-            # just choose one of the rounding modes (RTZ)
-            rand_rm = RoundingMode.RTZ
+            # Either `self` is representable, and every mode returns it, or
+            # the extended-precision value landed on a neighbour: on the lower
+            # one (no draw rounds away) or, by a carry, on the upper one
+            # (every draw does).
+            rand_rm = RoundingMode.RAZ if abs(xr) > abs(self) else RoundingMode.RTZ
         else:
             # step 7. normalize `lost` so that `lost.n == n_rand`
             offset = lost._exp - (n_rand + 1)
